@@ -256,6 +256,14 @@ func parseLine(line string, document *Document, family *FamilyNode) (Node, int, 
 	// Tag (required).
 	tag := TagFromString(parts[3])
 
+	// Husband, wife and child nodes belong to the most recently seen family.
+	switch tag {
+	case TagHusband, TagWife, TagChild:
+		if family == nil {
+			return nil, 0, fmt.Errorf("cannot create %s without a family: %s", tag, line)
+		}
+	}
+
 	// Value (optional).
 	value := parts[4]
 
